@@ -769,7 +769,24 @@ Proof.
   remember (t0 :: ts') as ts eqn:Ets in *.
   destruct (is_rbrace t0) eqn:Hrb.
   { inversion H; subst ds rest. exists []. split; [reflexivity | apply io_nil]. }
-  clear Ets Hrb t0 ts'.
+  match type of H with (match ?X with _ => _ end) = _ =>
+    destruct X as [[dsb restb] |] eqn:Hblk end.
+  { (* a bare block *)
+    inversion H; subst dsb restb. clear H.
+    destruct (is_lbrace t0) eqn:Hlb; [| discriminate].
+    match type of Hblk with context [parse_items f l ?x ts'] =>
+      destruct (parse_items f l x ts') as [[ds1 [| c more]] |] eqn:Hp1; try discriminate end.
+    destruct (is_rbrace c) eqn:Hrc; [| discriminate].
+    match type of Hblk with context [parse_items f l ?x more] =>
+      destruct (parse_items f l x more) as [[ds2 rest3] |] eqn:Hp2; [| discriminate] end.
+    inversion Hblk; subst ds rest3. clear Hblk.
+    apply IHf in Hp1. destruct Hp1 as (body & Ebody & Hbody).
+    apply IHf in Hp2. destruct Hp2 as (r & Emore & Hr).
+    exists (t0 :: body ++ c :: r). split.
+    - rewrite Ets, Ebody, Emore. list_norm. reflexivity.
+    - apply io_block; try assumption.
+      apply (items_of_off_eq _ _ _ _ _ Hr). rewrite Ebody, app_length. cbn [length]. lia. }
+  clear Hblk Ets Hrb t0 ts'.
   destruct (stmt_len ts 0) as [n |] eqn:Hsl.
   { (* a simple statement *)
     destruct (inner_b (firstn (n - 1) ts)) eqn:Hin; [| discriminate].
